@@ -4,7 +4,7 @@ use super::common::*;
 use super::interval::{ChunkAddSpec, Chunky, IntervalCheck, Judge};
 use super::{common_assumptions, Plan};
 use crate::envelope::*;
-use crate::exact::{exact_sum_products, Rat};
+
 use crate::explore::Violation;
 use crate::report::Tier;
 use crate::subjects::*;
@@ -36,8 +36,36 @@ pub fn pair_alphabet(name: &str) -> Vec<(f64, f64)> {
 }
 
 pub fn judge_weighted(tname: &'static str, with_error: bool, items: &[(f64, f64)], obs: &Obs, cache: &ExactCache, board: &RatioBoard) -> Vec<Violation> {
-    let mut out = Vec::new();
     let n = items.len() as u64;
+    if n == 0 {
+        return judge_weighted_core(tname, with_error, 0, None, obs, board, &|| format!("{items:?}"));
+    }
+    let rows: Vec<(Vec<f64>, u64)> = items.iter().map(|(x, w)| (vec![*x, *w], 1)).collect();
+    let xs: Vec<f64> = items.iter().map(|(x, _)| *x).collect();
+    let ex = cache.get(&ms_of(&xs));
+    judge_weighted_core(tname, with_error, n, Some((&rows, &ex)), obs, board, &|| format!("{items:?}"))
+}
+
+/// the same oracle for a weighted multiset of pairs: ((x, w), multiplicity)
+pub fn judge_weighted_mult(tname: &'static str, with_error: bool, rows: &[((f64, f64), u64)], obs: &Obs, board: &RatioBoard) -> Vec<Violation> {
+    let n: u64 = rows.iter().map(|r| r.1).sum();
+    let r2: Vec<(Vec<f64>, u64)> = rows.iter().map(|((x, w), m)| (vec![*x, *w], *m)).collect();
+    let xs: Vec<(f64, u64)> = rows.iter().map(|((x, _), m)| (*x, *m)).collect();
+    let ex = crate::exact::ExactStats::new_weighted(&xs, 2);
+    judge_weighted_core(tname, with_error, n, Some((&r2, &ex)), obs, board, &|| format!("{rows:?} (pair, multiplicity)"))
+}
+
+fn judge_weighted_core(
+    tname: &'static str,
+    with_error: bool,
+    n: u64,
+    data: Option<(&Vec<(Vec<f64>, u64)>, &crate::exact::ExactStats)>,
+    obs: &Obs,
+    board: &RatioBoard,
+    show: &dyn Fn() -> String,
+) -> Vec<Violation> {
+    use crate::exact::exact_sum_products_w;
+    let mut out = Vec::new();
     if with_error {
         match &obs.len {
             Some(Ok(l)) if *l == n => {}
@@ -48,21 +76,19 @@ pub fn judge_weighted(tname: &'static str, with_error: bool, items: &[(f64, f64)
             e => out.push(Violation { sig: format!("{tname}.is_empty:wrong"), detail: format!("is_empty() = {e:?} with {n} pairs") }),
         }
     }
-    if n == 0 {
-        return out;
-    }
-    let rows: Vec<Vec<f64>> = items.iter().map(|(x, w)| vec![*x, *w]).collect();
-    let sw = exact_sum_products(&rows, &[1]);
-    let sw2 = exact_sum_products(&rows, &[1, 1]);
-    let swx = exact_sum_products(&rows, &[0, 1]);
+    let (rows, ex) = match data {
+        None => return out,
+        Some(d) => d,
+    };
+    let sw = exact_sum_products_w(rows, &[1]);
+    let sw2 = exact_sum_products_w(rows, &[1, 1]);
+    let swx = exact_sum_products_w(rows, &[0, 1]);
     let nf = n as f64;
-    let m = items.iter().fold(0.0f64, |a, (x, _)| a.max(x.abs()));
-    let xs: Vec<f64> = items.iter().map(|(x, _)| *x).collect();
-    let ex = cache.get(&ms_of(&xs));
+    let m = rows.iter().fold(0.0f64, |a, r| a.max(r.0[0].abs()));
     let positive = sw.signum() > 0;
-    let mut expect = |stat: Stat| -> Expect {
+    let expect = |stat: Stat| -> Expect {
         match stat {
-            Stat::UnweightedMean | Stat::PopVar | Stat::SampleVar => expect_moment(stat, &ex),
+            Stat::UnweightedMean | Stat::PopVar | Stat::SampleVar => expect_moment(stat, ex),
             _ if !positive => Expect::Skip("total weight zero: C16"),
             Stat::WMean => Expect::WithinRat { exact: swx.div(&sw), tol: C_WMEAN * nf * U * m * SLACK },
             Stat::SumW => Expect::WithinRat { exact: sw.clone(), tol: 8.0 * nf * U * sw.to_f64() * SLACK },
@@ -111,7 +137,7 @@ pub fn judge_weighted(tname: &'static str, with_error: bool, items: &[(f64, f64)
             };
             out.push(Violation {
                 sig: format!("{tname}.{}:{class}", stat.name()),
-                detail: format!("{tname}::{} = {} but expected {} for the pairs {:?}", stat.name(), val.show(), j.expected, items),
+                detail: format!("{tname}::{} = {} but expected {} for the pairs {}", stat.name(), val.show(), j.expected, show()),
             });
         }
     }
@@ -159,8 +185,30 @@ pub fn plan(tier: Tier) -> Plan {
         checks.push(trees::<WeightedMean>("WeightedMean", false, a, l));
         checks.push(trees::<WeightedMeanWithError>("WeightedMeanWithError", true, a, l));
     }
+    for (name, with_error) in [("WeightedMeanWithError", true)] {
+        let board = Arc::new(RatioBoard::new());
+        checks.push(Box::new(super::longrun::DoublingPairs::<WeightedMeanWithError> {
+            prop: "C08",
+            alpha_name: "w3".into(),
+            alpha: vec![(-1., 0.), (0.1, 0.5), (3., 1e6)],
+            doublings: if q { 34 } else { 40 },
+            judge: Box::new(move |rows, obs| judge_weighted_mult(name, with_error, rows, obs, &board)),
+            _t: Default::default(),
+        }));
+    }
+    {
+        let board = Arc::new(RatioBoard::new());
+        checks.push(Box::new(super::longrun::DoublingPairs::<WeightedMean> {
+            prop: "C08",
+            alpha_name: "w3".into(),
+            alpha: vec![(-1., 0.), (0.1, 0.5), (3., 1e6)],
+            doublings: if q { 34 } else { 40 },
+            judge: Box::new(move |rows, obs| judge_weighted_mult("WeightedMean", false, rows, obs, &board)),
+            _t: Default::default(),
+        }));
+    }
     Plan {
-        rule: "add-only: every sequence of (x, w) pairs over product alphabets (x from 3 values, w from {0, 1e-6, 0.5, 1, 3, 1e6}: a zero weight at every position, first included) up to the depth bound; merge trees: the interval exploration of C02 over 4-/8-pair alphabets (zero-weight chunks included); every state judged against exact rational weighted sums when the exact total weight is positive; non-trivial = at least two pairs".into(),
+        rule: "large n: chains built by merging an estimator with itself up to 34 (40) times and every cross merge of two chains, against exact weighted sums with multiplicities; AND add-only: every sequence of (x, w) pairs over product alphabets (x from 3 values, w from {0, 1e-6, 0.5, 1, 3, 1e6}: a zero weight at every position, first included) up to the depth bound; merge trees: the interval exploration of C02 over 4-/8-pair alphabets (zero-weight chunks included); every state judged against exact rational weighted sums when the exact total weight is positive; non-trivial = at least two pairs".into(),
         assumptions: common_assumptions(),
         checks,
     }
